@@ -764,10 +764,10 @@ static size_t upipe_ts_encaps_pes_header_size(struct upipe *upipe,
                 header_size = PES_HEADER_SIZE_PTS;
         } else
             header_size = PES_HEADER_SIZE_NOPTS;
-    } else
+        if (header_size < encaps->pes_header_size)
+            header_size = encaps->pes_header_size;
+    } else /* no optional header, hence no stuffing */
         header_size = PES_HEADER_SIZE;
-    if (header_size < encaps->pes_header_size)
-        header_size = encaps->pes_header_size;
     return header_size;
 }
 
